@@ -251,6 +251,10 @@ def deviant_set(deep, seed=0):
             out.append((f'asym/{label}/{base}', scripted(base) + tail, conf, 13, set()))
     out.append(('acquire_unknown_index', scripted('handshake') + [['acquire_index', 'A', 81, 99], ['deliver', 0],
                                                                    ['acquire_index', 'B', 0, 98]], {}, 14, set()))
+    # F21: the ACQUIRE for an unknown index arrives while there is no IKE_SA with the peer yet
+    out.append(('edge/acquire_unknown_index_fresh', [['acquire_index', 'A', 81, 99], ['tick', 1], ['status', 'A'],
+                                                     ['acquire_index', 'A', 81, 99]] + scripted('handshake') + tail,
+                {}, 14, set()))
     # IKE_SA_INIT request retransmitted to a responder that already has keys (INIT_RES_SENT); wrong-role copies
     out.append(('init_retransmission', [['acquire', 'A', 80], ['dup', 0], ['deliver', 0], ['deliver', 0], ['deliver', 0],
                                         ['deliver', 0], ['deliver', 0], ['replay', 0]], {}, 15, set()))
